@@ -160,6 +160,7 @@ def generated_tables(U):
     U.ensures("package listing", sorted(p.get_packages_names()) == sorted(pk[1] for pk in model), got=p.get_packages_names())
     for pid, pname, types, opts in model:
         tid0 = 1 + opts.get("type_id_offset", 0)
+        all_cfgs, multi = {}, []
         locs = set()
         for t in types:
             for c in t["configs"]:
@@ -192,6 +193,13 @@ def generated_tables(U):
                 if not got.ok:
                     continue
                 gk = {_got_cfg_key(c): ate for c, ate in got.value}
+                all_cfgs.update((_got_cfg_key(c), c) for c, _ in got.value)
+                for c, ate in got.value:
+                    one = U.call(p.get_res_configs, rid, c)
+                    U.ensures("asking for a configuration that defines the id returns that configuration's entry",
+                              one.ok and len(one.value) == 1 and one.value[0][1] is ate and _got_cfg_key(one.value[0][0]) == _got_cfg_key(c),
+                              rid=hex(rid), config=repr(c), got=repr(one.value)[:200], exc=repr(one.exc)[:100])
+                multi.append((rid, set(gk)))
                 U.ensures("one entry per configuration that defines the id", set(gk) == set(want), rid=hex(rid), got=sorted(gk), want=sorted(want))
                 for k, e in want.items():
                     ate = gk.get(k)
@@ -215,6 +223,16 @@ def generated_tables(U):
                 any_e = next(iter(want.values()))
                 back = U.call(p.get_res_id_by_key, pname, t["name"], any_e["key"])
                 U.ensures("key-to-id listing", back.ok and back.value == rid, rid=hex(rid), got=back.value, exc=repr(back.exc)[:100])
+        # a configuration for which an id with several configurations has no entry: nothing is returned (no fallback asked for)
+        for rid, have in multi:
+            if len(have) < 2:
+                continue            # with a single stored configuration get_res_configs answers it for any request (documented leniency)
+            for k, c in sorted(all_cfgs.items(), key=lambda kv: repr(kv[0])):
+                if k not in have:
+                    none = U.call(p.get_res_configs, rid, c, False)
+                    U.ensures("a configuration without an entry for the id yields nothing when no fallback is asked for",
+                              none.ok and none.value == [], rid=hex(rid), config=repr(c), got=repr(none.value)[:200])
+                    break
         # resolver: concrete values for the default configuration
         rr = m.ARSCParser.ResourceResolver(p, None)
         for ti, t in enumerate(types, tid0):
